@@ -84,28 +84,35 @@ def quotedValue : Bytes → Bool → Bytes → Option (Bytes × Bytes)
     if c == 34 && !esc then some (acc.reverse, cs)
     else quotedValue cs (c == 92 && !esc) (c :: acc)
 
+/-- one iteration of the `for len(b) > 0` loop: the pair handed to the callback and the bytes the
+    next iteration starts from; `none` = the function returns -/
+def visitStep (b : Bytes) : Option ((Bytes × Bytes) × Bytes) :=
+  match afterSemi b with
+  | none => none
+  | some b1 =>
+    let b2 := b1.dropWhile (· == 32)
+    let key := b2.takeWhile tchar
+    if key.isEmpty then none else
+    match b2.drop key.length with
+    | 61 :: c :: rest =>
+      if tchar c then
+        let v := (c :: rest).takeWhile tchar
+        some ((key, v), (c :: rest).drop v.length)
+      else if c == 34 then
+        match quotedValue rest false [] with
+        | none => none
+        | some (v, after) => some ((key, v), after)
+      else none
+    | _ => none
+
 /-- All `(key, value)` pairs `VisitHeaderParams` passes to a callback that never stops it.
     One loop iteration per unit of fuel (each iteration consumes at least the `;`). -/
 def visitFuel : Nat → Bytes → List (Bytes × Bytes)
   | 0, _ => []
   | fuel + 1, b =>
-    match afterSemi b with
+    match visitStep b with
     | none => []
-    | some b1 =>
-      let b2 := b1.dropWhile (· == 32)
-      let key := b2.takeWhile tchar
-      if key.isEmpty then [] else
-      match b2.drop key.length with
-      | 61 :: c :: rest =>
-        if tchar c then
-          let v := (c :: rest).takeWhile tchar
-          (key, v) :: visitFuel fuel ((c :: rest).drop v.length)
-        else if c == 34 then
-          match quotedValue rest false [] with
-          | none => []
-          | some (v, after) => (key, v) :: visitFuel fuel after
-        else []
-      | _ => []
+    | some (kv, rest) => kv :: visitFuel fuel rest
 
 def visitParams (b : Bytes) : List (Bytes × Bytes) := visitFuel (b.length + 1) b
 
@@ -319,8 +326,12 @@ structure FormatObs where
 def defaultCT : Bytes := b "text/plain; charset=utf-8"
 def sDefault : Bytes := b "default"
 
-def lastIndexOf (l : List Bytes) (x : Bytes) : Option Nat :=
-  (l.zipIdx.filter (·.1 == x)).getLast?.map (·.2)
+def lastIndexFrom : List Bytes → Bytes → Nat → Option Nat → Option Nat
+  | [], _, _, acc => acc
+  | y :: ys, x, i, acc => lastIndexFrom ys x (i + 1) (if y == x then some i else acc)
+
+/-- index of the last handler whose media type is `x` (the `for` loop keeps overwriting `defaultHandler`) -/
+def lastIndexOf (l : List Bytes) (x : Bytes) : Option Nat := lastIndexFrom l x 0 none
 
 def ctOf (m : Bytes) : Bytes := if m == [] then defaultCT else m
 
